@@ -318,6 +318,12 @@ def run_symbolic(p: Proof, case, timeout_s: float, job_timeout_s: float, seed: i
                   obls.append(("no-unexpected-exception", path.pc, tm.FALSE, {"exception": f"{type(e).__name__}: {e}", "tb": tb}))
               for clause, pc, goal, info in obls:
                   oid = p.oid(clause, case)
+                  if clause == "no-unexpected-exception":
+                      # an exception escaping on this path: either the path is infeasible (then nothing to
+                      # report) or it is a failed obligation
+                      r0 = solve.discharge(tuple(pc), goal, timeout_s, poly.identity)
+                      if r0["verdict"] == "proved":
+                          continue
                   rec = out["obligations"].setdefault(
                       oid, {"verdict": "proved", "backends": [], "seconds": 0.0, "vcs": 0, "env": None, "text": "",
                             "cover": False})
